@@ -1,5 +1,6 @@
 """C02 -- a confirmed SDO download leaves exactly the client's bytes in the object (CoSsdo / CoSsdoScen)."""
 import common, vlib, sdo_common
+VARIANTS = {"default": (), "scen_n1": (), "n2": ("CO_SSDO_N=2",)}
 
 def run(ctx):
     import sdo_scen
